@@ -1,6 +1,8 @@
 #!/usr/bin/env python3
 """Import seeded changes from /tmp/seed_Cxx/mK into /verif/seeded/, confirm them (demo passes on the clean tree, fails
 with the change) and run the listed checks against them.  Writes seeded/<id>/meta.json.
+The change is applied in a scratch worktree (VERIF_REPO points the checks at it), never in /repo, so other runs are
+not disturbed.
 usage: tools/seedrun.py C04-m1[:C04,C02] ...   (default checks: the property's own check)"""
 import json, os, shutil, subprocess, sys
 V = "/verif"
@@ -23,25 +25,28 @@ def main():
             shutil.copytree(src, dst)
         meta_p = f"{dst}/meta.json"
         meta = json.load(open(meta_p)) if os.path.exists(meta_p) else {"id": sid, "property": prop, "checks": {}}
-        rc, out = sh("git -C /repo status --porcelain")
-        if out.strip():
-            print("/repo not clean"); sys.exit(2)
-        env = dict(os.environ, PYTHONPATH="/repo")
-        rc0, _ = sh(f"timeout 120 /venv/bin/python {dst}/demo.py", env=env)
-        rca, o = sh(f"git -C /repo apply {dst}/patch.diff")
+        WT = f"/tmp/wt_seedrun_{os.getpid()}"
+        sh(f"git -C /repo worktree remove --force {WT}")
+        rc, out = sh(f"git -C /repo worktree add --detach {WT} HEAD")
+        if rc != 0:
+            print("cannot create worktree", out[:300]); sys.exit(2)
+        env0 = dict(os.environ, PYTHONPATH="/repo")
+        env = dict(os.environ, PYTHONPATH=WT, VERIF_REPO=WT)
+        rc0, _ = sh(f"timeout 120 /venv/bin/python {dst}/demo.py", env=env0)
+        rca, o = sh(f"git -C {WT} apply {dst}/patch.diff")
         if rca != 0:
-            print(sid, "patch does not apply", o[:300]); continue
+            print(sid, "patch does not apply", o[:300]); sh(f"git -C /repo worktree remove --force {WT}"); continue
         try:
             rc1, _ = sh(f"timeout 120 /venv/bin/python {dst}/demo.py", env=env)
             meta["demo_clean_exit"], meta["demo_changed_exit"] = rc0, rc1
             for c in checks:
-                rcc, out = sh(f"timeout 2000 ./check {c} --tier quick", cwd=V)
+                rcc, out = sh(f"timeout 2000 ./check {c} --tier quick", cwd=V, env=dict(os.environ, VERIF_REPO=WT, VERIF_EVIDENCE_DIR="/verif/work/seeded_evidence"))
                 lines = [l for l in out.splitlines() if l.startswith(("VIOLATION", "OK ", "MACHINERY", "  "))]
                 first = next((l.strip() for l in out.splitlines() if l.startswith("  ") and "more violations" not in l), "")
                 meta["checks"][c] = {"exit": rcc, "caught": rcc == 1, "first_violation": first[:400]}
                 print(f"{sid} demo clean={rc0} changed={rc1} | {c}: exit {rcc} {'CAUGHT' if rcc == 1 else 'MISSED' if rcc == 0 else 'MACHINERY'} {first[:160]}")
         finally:
-            sh("git -C /repo checkout -- .")
+            sh(f"git -C /repo worktree remove --force {WT}")
         notes = open(f"{dst}/notes.md").read() if os.path.exists(f"{dst}/notes.md") else ""
         meta.setdefault("what_it_needs", "see notes.md")
         meta["ran"] = [f"./check {c} --tier quick" for c in checks]
